@@ -101,7 +101,7 @@ theorem failure_rewinds_or_raises (p : Params) (A : Admissible p) (os : List Out
   have I : Inv p tm acc := hg
   obtain ⟨hacc, hcase⟩ := step_failed_cases F I
   refine ⟨hacc, ?_⟩
-  rcases hcase with h1 | h1 | ⟨h1, h2, h3, _⟩
+  rcases hcase with h1 | h1 | ⟨h1, h2, h3, _, _⟩
   · exact Or.inl h1
   · exact Or.inr (Or.inl h1)
   · exact Or.inr (Or.inr ⟨h1, h2, by rw [h2]; exact I.head, h3⟩)
@@ -167,6 +167,73 @@ theorem all_converged_hits_every_scheduled (p : Params) (A : Admissible p) (hmin
     ∀ y ∈ p.schedule, HitBy p (run p os).accepted y :=
   hits_every_scheduled p A os (all_converged_finishes p A hmin os hall hlen)
 
+/-- Termination of EVERY tape, failures included (for a positive `dt_min`): each accepted step may be
+    preceded by at most `recomp_max` recomputations, so after `(recomp_max + 1)·((final − t₀)/dt_min +
+    len(schedule) − 1)` outcomes the loop has ended — regularly or with one of the two errors. -/
+theorem run_terminates (p : Params) (A : Admissible p) (hmin : 0 < p.dtMin) (os : List Outcome)
+    (hlen : ((p.recompMax : Rat) + 1) *
+              ((p.timeFinal - p.timeInit) + p.dtMin * ((p.schedule.length - 1 : Nat) : Rat))
+              ≤ p.dtMin * (os.length : Rat)) :
+    (run p os).status ≠ .running := by
+  have F := facts_of_admissible A
+  intro h
+  have h0 : (startRun p).status = .running := by
+    by_cases h0 : (startRun p).status = .running
+    · exact h0
+    · have : run p os = startRun p := runFrom_not_running p os _ h0
+      rw [this] at h; exact absurd h h0
+  have hw := work_runFrom F hmin os _ (good_start F) h0 h
+  have hg := (good_run F os).2.2
+  rw [h] at hg
+  have hge := work_ge F hmin (show Inv p (run p os).tm (run p os).accepted from hg)
+  have hw0 : work p (startRun p).tm = ((p.recompMax : Rat) + 1) *
+      ((p.timeFinal - p.timeInit) + p.dtMin * ((p.schedule.length - 1 : Nat) : Rat))
+      + p.dtMin * ((p.recompMax : Rat) - ((0 : Nat) : Rat)) := rfl
+  have hz : ((0 : Nat) : Rat) = 0 := rfl
+  have : work p (run p os).tm + p.dtMin * (os.length : Rat) ≤ work p (startRun p).tm := hw
+  rw [hw0, hz] at this
+  grind
+
+/-- The number of accepted times (initial time included) is bounded whatever the outcomes are, for a
+    positive `dt_min`: `#accepted ≤ (final − t₀)/dt_min + len(schedule)`; every accepted step advances
+    the clock by at least `dt_min` or lands on the next scheduled time. -/
+theorem accepted_steps_bounded (p : Params) (A : Admissible p) (hmin : 0 < p.dtMin) (os : List Outcome) :
+    p.dtMin * ((run p os).accepted.length : Rat)
+      ≤ (p.timeFinal - p.timeInit) + p.dtMin * (p.schedule.length : Rat) := by
+  have F := facts_of_admissible A
+  have hp : pot p (run p os) ≤ pot p (startRun p) := pot_runFrom F hmin os _ (good_start F)
+  have hg := good_run F os
+  have h1 : p.dtMin * ((run p os).accepted.length : Rat) ≤ pot p (run p os) := by
+    unfold pot
+    cases hst : (run p os).status with
+    | running =>
+      have hI := hg.2.2
+      rw [hst] at hI
+      have := budget_ge F hmin (show Inv p (run p os).tm (run p os).accepted from hI)
+      simp only; grind
+    | finished => simp only; grind
+    | raised e => simp only; grind
+    | crashed e => simp only; grind
+  have hb0 : budget p (startRun p).tm
+      = (p.timeFinal - p.timeInit) + p.dtMin * ((p.schedule.length - 1 : Nat) : Rat) := rfl
+  have hfin0 : p.timeInit ≤ p.timeFinal := by
+    obtain ⟨s0, s1, rest, hs⟩ := schedule_shape F
+    have : p.timeInit = s0 := by simp [Params.timeInit, hs]
+    rw [this]; exact F.le_final s0 (by simp [hs])
+  have hlen0 : (0 : Rat) ≤ ((p.schedule.length - 1 : Nat) : Rat) := by exact_mod_cast Nat.zero_le _
+  have hnn := Rat.mul_nonneg (Rat.le_of_lt hmin) hlen0
+  have hlen : ((p.schedule.length - 1 : Nat) : Rat) + 1 = (p.schedule.length : Rat) := by
+    have : p.schedule.length - 1 + 1 = p.schedule.length := by have := F.len; omega
+    exact_mod_cast this
+  have h2 : pot p (startRun p) ≤ p.dtMin + budget p (startRun p).tm := by
+    unfold pot
+    have hl : ((startRun p).accepted.length : Rat) = 1 := by simp [startRun]
+    rw [hl]
+    cases hst : (startRun p).status <;> simp only <;> grind
+  have hmul : p.dtMin * ((p.schedule.length - 1 : Nat) : Rat) + p.dtMin = p.dtMin * (p.schedule.length : Rat) := by
+    rw [← hlen]; grind
+  grind
+
 /-- `time_index` counts the accepted steps. -/
 theorem time_index_counts_accepted (p : Params) (A : Admissible p) (os : List Outcome)
     (h : (run p os).status = .running) : (run p os).tm.timeIndex + 1 = (run p os).accepted.length := by
@@ -197,16 +264,37 @@ theorem constant_dt_failure_raises (p : Params) (hc : p.constantDt = true) (r : 
   cases h
   simp [stepRun, hc]
 
-/-- PARTIAL.  Full statement wanted: "if the constructor accepts a constant step, the loop hits every
-    scheduled time".  Proved: if every scheduled time is within tolerance of some `t₀ + k·dt_init`
-    (hypothesis `H`, which is what the constructor's compatibility check is meant to establish) and the
-    loop has ended, every scheduled time has been hit — also those whose `k` lies beyond the step at
-    which `final_time_reached` stopped the loop.  Missing: `Valid p → H`.  The constructor compares the
-    NUMBER of simulated times close to a neighbouring scheduled time with `len(schedule)`
-    (`is_schedule_in_simulated_times`), with the tolerance taken relative to the simulated time; for
-    tolerances that are not small against `dt_init` and the schedule gaps this count can agree while a
-    scheduled time is matched twice and another not at all, so `H` is not implied in general. -/
-theorem constant_dt_hits_partial (p : Params) (hv : Valid p) (hc : p.constantDt = true)
+/-- Constant step, FULL statement.  If the constructor accepts the parameters and the tolerance is small
+    against the step (`SmallTol`: `2·(atol + rtol·|v|) < dt_init` at every simulated time `v` of the
+    constructor's check and at the final time — decidable, and true for the default tolerances unless
+    `dt_init ≲ 2e-10·final`), then when the loop has ended every scheduled time `y` is matched by an
+    accepted time `a` with `np.isclose(y, a)` — the orientation the constructor itself uses.
+    The constructor only compares the NUMBER of simulated times close to a neighbouring scheduled time
+    with `len(schedule)`; the proof is a pigeonhole argument: under `SmallTol` two different simulated
+    times cannot be close to the same scheduled time, so equal counts force a bijection; and the loop
+    cannot stop a whole step before a matched simulated time. -/
+theorem constant_dt_hits (p : Params) (hv : Valid p) (hc : p.constantDt = true) (hs : SmallTol p)
+    (os : List Outcome) (hall : AllConverged os) (hfin : (run p os).status = .finished) :
+    ∀ y ∈ p.schedule, HitByC p (run p os).accepted y :=
+  constant_hits_full hv hc hs os hall hfin
+
+/-- With a constant step a tape of converged steps long enough to reach the final time ends the loop. -/
+theorem constant_dt_finishes (p : Params) (hc : p.constantDt = true) (os : List Outcome) (hall : AllConverged os)
+    (hlen : p.timeFinal ≤ p.timeInit + (os.length : Rat) * p.dtInit) : (run p os).status = .finished :=
+  constant_finishes hc os hall hlen
+
+/-- … so such a run hits every scheduled time. -/
+theorem constant_dt_run_hits_every_scheduled (p : Params) (hv : Valid p) (hc : p.constantDt = true)
+    (hs : SmallTol p) (os : List Outcome) (hall : AllConverged os)
+    (hlen : p.timeFinal ≤ p.timeInit + (os.length : Rat) * p.dtInit) :
+    ∀ y ∈ p.schedule, HitByC p (run p os).accepted y :=
+  constant_dt_hits p hv hc hs os hall (constant_dt_finishes p hc os hall hlen)
+
+/-- Variant in the orientation of `HitBy` (`np.isclose(a, y)`, what `final_time_reached` uses), from an
+    explicit matching hypothesis instead of the constructor's count: if every scheduled time is within
+    tolerance of some `t₀ + k·dt_init`, every scheduled time is hit when the loop has ended — also those
+    whose `k` lies beyond the step at which the loop stopped.  No smallness of the tolerance is needed. -/
+theorem constant_dt_hits_of_matches (p : Params) (hv : Valid p) (hc : p.constantDt = true)
     (htol : p.rtol ≤ 1 ∨ 0 ≤ p.atol)
     (H : ∀ y ∈ p.schedule, ∃ k : Nat, isclose p.rtol p.atol (p.timeInit + (k : Rat) * p.dtInit) y = true)
     (os : List Outcome) (hall : AllConverged os) (hfin : (run p os).status = .finished) :
@@ -267,5 +355,22 @@ def pConst : Params :=
 example : Valid pConst ∧ (run pConst (List.replicate 6 (.converged 3))).accepted = [1, 3/4, 1/2, 1/4, 0]
     ∧ (run pConst (List.replicate 6 (.converged 3))).status = .finished := by
   decide +kernel
+
+/-- `SmallTol` is needed: schedule [0, 1/4, 9/4], constant step 1, rtol = 1/4, atol = 0.  The constructor
+    accepts it — the simulated times 0, 2 and 3 are close to a scheduled time (2 and 3 both to 9/4), which
+    makes three matches for three scheduled times — but the loop visits 0, 1, 2 and the scheduled time 1/4
+    is close to none of them, in either orientation of `isclose`. -/
+def pCex : Params :=
+  { pF2 with schedule := [0, 1/4, 9/4], dtInit := 1, constantDt := true, rtol := 1/4, atol := 0 }
+
+example : Valid pCex ∧ ¬ SmallTol pCex
+    ∧ (run pCex (List.replicate 5 (.converged 3))).status = .finished
+    ∧ (run pCex (List.replicate 5 (.converged 3))).accepted = [2, 1, 0]
+    ∧ ∀ a ∈ (run pCex (List.replicate 5 (.converged 3))).accepted,
+        isclose pCex.rtol pCex.atol (1/4) a = false ∧ isclose pCex.rtol pCex.atol a (1/4) = false := by
+  decide +kernel
+
+/-- `SmallTol` is satisfiable together with `Valid`: the constant-step example above with default tolerances -/
+example : Valid pConst ∧ SmallTol pConst := by decide +kernel
 
 end PorepyVerif.C09
